@@ -1011,13 +1011,15 @@ impl<T: CoreKind> Obj for CoreObj<T> {
         let bs = <T::BlockSize as Unsigned>::USIZE;
         match toks {
             ["ksblock"] => {
+                // the destination holds garbage: `write_*` must overwrite, not combine
                 let mut b = Block::<T>::default();
+                b.iter_mut().for_each(|x| *x = 0xa5);
                 self.c.write_keystream_block(&mut b);
                 line(format!("out {}", hex(&b)))
             }
             ["ksblocks", n] => {
                 let Ok(k) = n.parse::<usize>() else { return bad() };
-                let mut v = vec![0u8; k * bs];
+                let mut v = vec![0xa5u8; k * bs];
                 self.c.write_keystream_blocks(blocks_mut::<T::BlockSize>(&mut v));
                 line(format!("out {}", hex(&v)))
             }
@@ -1053,7 +1055,7 @@ impl<T: CoreKind> Obj for CoreObj<T> {
                 // caller-written closure for `process_with_backend`: variant 0 = every block through `gen_ks_block`,
                 // variant 1 = chunks of ParBlocksSize through `gen_par_ks_blocks`, the rest through `gen_tail_blocks`
                 let (Ok(v), Ok(k)) = (v.parse::<u8>(), n.parse::<usize>()) else { return bad() };
-                let mut buf = vec![0u8; k * bs];
+                let mut buf = vec![0x5au8; k * bs];
                 self.c.process_with_backend(DirectKs { variant: v, buf: blocks_mut::<T::BlockSize>(&mut buf) });
                 line(format!("out {}", hex(&buf)))
             }
